@@ -240,6 +240,13 @@ theorem steady_state (b : List ℂ) (ω : ℝ) (N n : ℕ) (hn : n < N) (hord : 
   simp only [hu, tf_eq]
   exact this
 
+/-- **C12.4a'** the scale factor of C12.4 is literally `freq_response(ω)` of the FIR filter
+(`ZFilter(b)`, denominator 1): it is never nan. -/
+theorem fir_freq_response (b : List ℂ) (ω : ℝ) :
+    respOfFilter b [1] (Complex.exp (-(Complex.I * ω))) = Resp.val (tf b ω) := by
+  rw [respOfFilter_eq_spec _ _ _ (Complex.exp_ne_zero _)]
+  simp [respSpec, Hspec, tf_eq, evalDirect, evalFrom, pw]
+
 /-- **C12.4c** every sample, transient included: `y_n = (Σ_{k ≤ n} b_k e^{-jωk}) · e^{jωn}`
 (algebraic form: `x_n = u^n`, `u·w = 1`, any field). -/
 theorem exponential_response {K : Type} [Field K] [DecidableEq K] (b : List K) (u w : K)
